@@ -100,6 +100,11 @@ static PROG_OP: AtomicUsize = AtomicUsize::new(0);
 static TRAP_FD: AtomicI32 = AtomicI32::new(-1);
 static PROGRESS_FD: AtomicI32 = AtomicI32::new(-1);
 
+pub fn timing() -> bool {
+    static T: LazyLock<bool> = LazyLock::new(|| std::env::var_os("MEMSIM_TIMING").map_or(false, |v| v == "2"));
+    *T
+}
+
 pub fn progress(tid: usize, op: usize) {
     PROG_TID.store(tid, Ordering::Relaxed);
     PROG_OP.store(op, Ordering::Relaxed);
@@ -252,8 +257,15 @@ fn host_avx2() -> bool {
     }
 }
 
+static PORTABLE: std::sync::atomic::AtomicBool = std::sync::atomic::AtomicBool::new(false);
+
 pub fn target() -> gen::Target {
     let miri = cfg!(miri);
+    if PORTABLE.load(Ordering::Relaxed) {
+        // the same episodes on every target and build flavour (C09 across
+        // processes): nothing target specific may influence generation
+        return gen::Target { x86_64: false, aarch64: false, miri: false, scale_small: true, cost_max_log2: 10 };
+    }
     gen::Target {
         x86_64: cfg!(target_arch = "x86_64"),
         aarch64: cfg!(target_arch = "aarch64"),
@@ -319,7 +331,7 @@ pub fn execute(
         Some(c) => Choices::replaying(c),
         None => Choices::fresh(ep.rt_seed ^ 0x5bd1_e995),
     };
-    let w: &'static World = Box::leak(Box::new(World {
+    let w_raw: *mut World = Box::into_raw(Box::new(World {
         env: env.clone(),
         host_avx2: host_avx2(),
         compile_avx2: cfg!(target_feature = "avx2"),
@@ -332,6 +344,8 @@ pub fn execute(
         faults_fired: AtomicU64::new(0),
         mode,
     }));
+    // SAFETY: freed below, after hooks are uninstalled and all tasks joined
+    let w: &'static World = unsafe { &*w_raw };
     ARENA.write().unwrap().load(&ep.bufs);
     // fresh process: every dispatch slot back to its detector
     exec_std::reset_slots();
@@ -376,7 +390,7 @@ pub fn execute(
     world::set_world(None);
     // SAFETY: nothing refers to the world any more (hooks uninstalled, all
     // tasks joined)
-    let w: Box<World> = unsafe { Box::from_raw(w as *const World as *mut World) };
+    let w: Box<World> = unsafe { Box::from_raw(w_raw) };
     let mut st = w.stats.into_inner().unwrap();
     st.episodes = 1;
     st.episodes_by_cpu[env.cpu as usize] += 1;
@@ -631,6 +645,10 @@ fn cmd_run(args: &[String]) -> i32 {
     for index in from..to {
         let fam = gen::generate(profile, seed, index, tgt);
         PROG_FAMILY.store(index, Ordering::Relaxed);
+        if cfg!(miri) {
+            // attribution of an interpreter abort to a family
+            eprintln!("FAMILY {}", index);
+        }
         #[cfg(not(miri))]
         unsafe {
             let fd = PROGRESS_FD.load(Ordering::Relaxed);
@@ -639,7 +657,19 @@ fn cmd_run(args: &[String]) -> i32 {
                 libc::pwrite(fd, b.as_ptr() as *const libc::c_void, 8, 0);
             }
         }
+        let t_gen = start.elapsed().as_secs_f64();
         let fo = run_family(&fam, &mut rep.stats);
+        if std::env::var_os("MEMSIM_TIMING").is_some() {
+            eprintln!(
+                "family {} gen-done@{:.2}s run-done@{:.2}s ops={} threads={} bytes={}",
+                index,
+                t_gen,
+                start.elapsed().as_secs_f64(),
+                fam.base.threads.iter().map(|t| t.len()).sum::<usize>(),
+                fam.base.threads.len(),
+                fam.base.bufs.iter().map(|b| b.bytes.len()).sum::<usize>()
+            );
+        }
         rep.families += 1;
         rep.executions += fam.variants.len() as u64;
         if (sigs.len() as u64) < sig_cap {
@@ -802,6 +832,9 @@ fn main() {
     if args.is_empty() {
         eprintln!("usage: memsim run|replay|minimise|gen|info ...");
         std::process::exit(2);
+    }
+    if flag(&args, "--portable") {
+        PORTABLE.store(true, Ordering::Relaxed);
     }
     exec_std::abi_check();
     exec_alloc::abi_check();
